@@ -13,13 +13,86 @@ import (
 // ---------------------------------------------------------------------------
 
 type ClientMon struct {
-	seen []int
+	seen    []int
+	seenRsp []int
+	// orphaned lists the requests lost to the known defect (see below)
+	orphaned map[*PendingReq]bool
+	// consumed: connection+rid for which a successful unsubscribe took away
+	// counts of subscribe/get requests that were still outstanding
+	consumed map[string]int // -> SentAt of the latest such unsubscribe
+	prev     map[string]subCBs
 }
 
+type subCBs struct{ ready, access int }
+
+// Step feeds the reference client's findings into the verdicts and keeps the
+// context for the one known way of losing a response: the gateway counts a
+// direct subscription when the subscribe/get request arrives, so an
+// unsubscribe sent while such requests are outstanding can take their counts
+// away. The subscription object is then disposed
+//   (A) by that very unsubscribe request, dropping the waiting continuations, or
+//   (B) later, when continuations that end in an error give back their counts
+//       one by one: the continuations still waiting for the access verdict
+//       are handed a disposed subscription and wait on it for ever.
+// A request is put down to the known defect only in these two situations; a
+// response lost in any other way (for instance continuations that already
+// wait for the load being dropped by a disposal that is not the client's own
+// unsubscribe) stays a violation.
 func (m *ClientMon) Step(w *World, _ string) {
 	if m.seen == nil {
 		m.seen = make([]int, len(w.Conns))
 	}
+	if m.seenRsp == nil {
+		m.seenRsp = make([]int, len(w.Conns))
+		m.orphaned = map[*PendingReq]bool{}
+		m.consumed = map[string]int{}
+		m.prev = map[string]subCBs{}
+	}
+	cur := map[string]subCBs{}
+	for _, cs := range w.ConnSnaps() {
+		for _, sub := range cs.Subs {
+			if sub.State != 0 {
+				cur[cs.CID+" "+sub.RID] = subCBs{sub.ReadyCBs, sub.AccessCBs}
+			}
+		}
+	}
+	for i, c := range w.Conns {
+		unsubNow := map[string]*PendingReq{}
+		for _, r := range c.Client.Resp[m.seenRsp[i]:] {
+			if r.Req == nil || r.Req.Action != "unsubscribe" || r.IsErr {
+				continue
+			}
+			unsubNow[r.Req.RID] = r.Req
+			for _, p := range c.Client.Pending {
+				if p.RID == r.Req.RID && p.SentAt < r.Req.SentAt && (p.Action == "subscribe" || p.Action == "get" || p.Action == "new") {
+					m.consumed[c.CID+" "+p.RID] = r.Req.SentAt
+				}
+			}
+		}
+		m.seenRsp[i] = len(c.Client.Resp)
+		for key, before := range m.prev {
+			if !strings.HasPrefix(key, c.CID+" ") {
+				continue
+			}
+			if _, still := cur[key]; still {
+				continue
+			}
+			rid := key[len(c.CID)+1:]
+			at, overlapped := m.consumed[key]
+			if !overlapped {
+				continue
+			}
+			_, byClient := unsubNow[rid]
+			if byClient || (before.access > 0 && before.ready == 0) {
+				for _, p := range c.Client.Pending {
+					if p.RID == rid && p.SentAt < w.time && (byClient && p.SentAt < at || !byClient) {
+						m.orphaned[p] = true
+					}
+				}
+			}
+		}
+	}
+	m.prev = cur
 	for i, c := range w.Conns {
 		is := c.Client.Issues
 		for _, x := range is[m.seen[i]:] {
@@ -75,11 +148,10 @@ func (m *ClientMon) End(w *World) {
 			p := c.Client.Pending[id]
 			kind := "unanswered:" + p.Action
 			// context for the known-finding predicate: an unsubscribe of the
-			// same rid succeeded while this request was outstanding
-			for _, r := range c.Client.Resp {
-				if r.Req != nil && r.Req.Action == "unsubscribe" && r.Req.RID == p.RID && !r.IsErr && r.Req.SentAt > p.SentAt {
-					kind = "unanswered-after-unsubscribe:" + p.Action
-				}
+			// same rid, sent while this request was outstanding, made the
+			// gateway dispose the subscription the request was waiting on
+			if m.orphaned[p] {
+				kind = "unanswered-after-unsubscribe:" + p.Action
 			}
 			w.Fail("C07", kind, "%s: request id %d (%s) never received a response although the system is quiescent", c.Label, id, p.Method)
 		}
@@ -212,6 +284,65 @@ type seqState struct {
 	res   *CRes
 	pos   int  // last position known to the client
 	first bool // no event delivered yet since hand-over
+	other int  // index into Svc.Events up to which non-stream events are matched
+}
+
+// sameEvent reports whether a delivered state event can be the emitted one:
+// add and remove are passed on as they are, a change event may be reduced to
+// the values that differ from the cached ones.
+func sameEvent(event string, delivered json.RawMessage, emitted string) bool {
+	switch event {
+	case "add", "remove":
+		var d, e struct {
+			Idx   *int            `json:"idx"`
+			Value json.RawMessage `json:"value"`
+		}
+		if json.Unmarshal(delivered, &d) != nil || json.Unmarshal([]byte(emitted), &e) != nil || d.Idx == nil || e.Idx == nil {
+			return false
+		}
+		return *d.Idx == *e.Idx && CanonJSON(d.Value) == CanonJSON(e.Value)
+	case "change":
+		var d, e struct {
+			Values map[string]json.RawMessage `json:"values"`
+		}
+		if json.Unmarshal(delivered, &d) != nil || json.Unmarshal([]byte(emitted), &e) != nil || len(d.Values) == 0 {
+			return false
+		}
+		for k, v := range d.Values {
+			ev, ok := e.Values[k]
+			if !ok || CanonJSON(ev) != CanonJSON(v) {
+				return false
+			}
+		}
+		return true
+	}
+	return false
+}
+
+// otherEvent places a delivered state event that is not part of the stream:
+// it was emitted when the stream stood at some position, and it has to be
+// delivered at that very position - after every stream event emitted before
+// it and before every one emitted after it.
+func (m *SeqMon) otherEvent(w *World, c *Conn, ev ClientEvent, st *seqState) {
+	if m.Relaxed {
+		return
+	}
+	key := ridKey(w, c, ev.RID)
+	for i := st.other; i < len(w.Svc.Events); i++ {
+		e := w.Svc.Events[i]
+		if e.Key != key || e.Tag != 0 || e.Event != ev.Event || !sameEvent(ev.Event, ev.Data, e.Payload) {
+			continue
+		}
+		st.other = i + 1
+		switch {
+		case e.Pos == st.pos:
+		case st.first && e.Pos == st.pos+1 && e.Pos%2 == 1:
+			st.pos = e.Pos // the snapshot was taken after the custom event
+		default:
+			w.Fail("C03", "reordered", "%s: %s event on %s was emitted at stream position %d but delivered when the client was at %d", c.Label, ev.Event, ev.RID, e.Pos, st.pos)
+		}
+		return
+	}
 }
 
 func snapSeq(cr *CRes) int {
@@ -278,6 +409,9 @@ func (m *SeqMon) Step(w *World, _ string) {
 				}
 			}
 			st := m.per[id]
+			if pos == 0 && ev.Held && st != nil {
+				m.otherEvent(w, c, ev, st)
+			}
 			if pos == 0 || !ev.Held || st == nil {
 				continue
 			}
